@@ -22,6 +22,7 @@ CONSTANTS
   MaxGen = 1
   MaxDup = 1
   Engine = "contract"
+  GateUsage = FALSE
 INIT Init
 NEXT Next
 VIEW View
